@@ -83,7 +83,7 @@ func main() {
 
 // ---- start states --------------------------------------------------------------------------
 
-func boot() (gen, com, warm *universe) {
+func boot() (gen, com, com2, warm *universe) {
 	if err := node.Boot(node.ForksAllOn, true); err != nil {
 		fmt.Fprintln(os.Stderr, "boot:", err)
 		os.Exit(3)
@@ -121,6 +121,25 @@ func boot() (gen, com, warm *universe) {
 		role:  []string{"absent", "storage-only", "contract"},
 		short: []string{"A", "S", "K"}}
 
+	// a state committed with deleteEmptyObjects=false: a hollow account (exists, nothing in it),
+	// a nonce-0 account that only holds an FT balance in its own storage (looks empty until
+	// that slot is read), a funded externally owned account (nonce 1, RPG balance)
+	H, T, E := mk(5), mk(6), mk(7)
+	b2 := node.LatestState()
+	b2.CreateAccount(H)
+	b2.SetFT(T, ftName, big.NewInt(5))
+	b2.SetNonce(E, 1)
+	b2.SetBalance(E, big.NewInt(20))
+	root3, err := b2.Commit(false)
+	if err != nil {
+		fmt.Fprintln(os.Stderr, "commit start state:", err)
+		os.Exit(3)
+	}
+	com2 = &universe{name: "committed-keep-empty", root: root3, db: db,
+		addr:  []common.Address{H, T, E},
+		role:  []string{"hollow", "storage-only", "eoa"}, // T: FT-only holder = storage-only account
+		short: []string{"H", "T", "E"}}
+
 	// third start state: the AccountDB object that committed the state is used on (as the
 	// node does with its latest state object): account objects stay cached, one of them
 	// (created and self-destructed before the commit) is flagged deleted.
@@ -151,6 +170,8 @@ type slice struct {
 	depth int
 	ft    bool
 	keep  bool // also compare IntermediateRoot(false)
+	// commit: also compare Commit(true) + a fresh AccountDB at the committed root (root and all queries)
+	commit bool
 
 	m0       *model
 	b        *bfs
@@ -220,7 +241,7 @@ func deepOps(a int) []Op {
 // buildSlices: the explored space is the union of the slices; each slice is the set of ALL
 // valid histories up to its depth over its alphabet (the full alphabet to full depth is out
 // of reach: 60 letters).  Order = order of execution (a time cap cuts the tail).
-func buildSlices(thorough bool, gen, com, warm *universe) []*slice {
+func buildSlices(thorough bool, gen, com, com2, warm *universe) []*slice {
 	var out []*slice
 	add := func(name string, u *universe, depth int, ft bool, ops []Op) {
 		out = append(out, &slice{name: u.name + "/" + name, u: u, ops: ops, depth: depth, ft: ft, keep: thorough})
@@ -232,6 +253,26 @@ func buildSlices(thorough bool, gen, com, warm *universe) []*slice {
 		return q
 	}
 	us := []*universe{com, gen}
+	// every call that can reach touch() with a zero amount (and the zero-amount balance calls),
+	// on every account class of the start states, alone inside reverted snapshots (nesting 1..3);
+	// roots by IntermediateRoot(true), IntermediateRoot(false) and Commit(true)+reopen
+	for _, u := range []*universe{com2, com, gen} {
+		for a := 0; a < 3; a++ {
+			z := []Op{{K: kAddFT, A: a, V: 0}, {K: kSubFT, A: a, V: 0}, {K: kAddBalance, A: a, V: 0}, {K: kSubBalance, A: a, V: 0}}
+			out = append(out, &slice{name: u.name + "/touch-" + u.short[a], u: u, ops: cat(z, ctlOps()), depth: 6, ft: true, keep: true, commit: true})
+		}
+	}
+	// exported FT mutators on a token name without binding (account's own storage, touch())
+	for _, u := range us {
+		for a := 0; a < 3; a++ {
+			y := []Op{{K: kSetNonce, A: a, V: 7}, {K: kSetData, A: a, S: 1, V: 1}, {K: kSetCode, A: a, V: 1}, {K: kSuicide, A: a}, {K: kCreate, A: a}, {K: kAddBalance, A: a, V: 5}}
+			dep := d(4, 6)
+			if u == gen {
+				dep = d(4, 5)
+			}
+			add("ft-"+u.short[a], u, dep, true, cat(ftOps(a), y, ctlOps()))
+		}
+	}
 	// one address at a time, the core letters of every journal-entry kind, deep
 	for _, u := range us {
 		for a := 0; a < 3; a++ {
@@ -266,17 +307,6 @@ func buildSlices(thorough bool, gen, com, warm *universe) []*slice {
 		add("accounts3", u, d(4, 5), false, cat(acctOps(0, false), acctOps(1, false), acctOps(2, false), tr, ctlOps()))
 	}
 	if thorough {
-		// exported FT mutators on a token name without binding (account's own storage, touch())
-		for _, u := range us {
-			for a := 0; a < 3; a++ {
-				y := []Op{{K: kSetNonce, A: a, V: 7}, {K: kSetData, A: a, S: 1, V: 1}, {K: kSetCode, A: a, V: 1}, {K: kSuicide, A: a}, {K: kCreate, A: a}, {K: kAddBalance, A: a, V: 5}}
-				dep := 6
-				if u == gen {
-					dep = 5
-				}
-				add("ft-"+u.short[a], u, dep, true, cat(ftOps(a), y, ctlOps()))
-			}
-		}
 		// the committing AccountDB object itself as start state
 		for a := 0; a < 3; a++ {
 			add("core-"+warm.short[a], warm, 5, false, cat(coreOps(a), ctlOps()))
@@ -311,6 +341,7 @@ const (
 	modeCold    = 1 // history, IntermediateRoot(true)
 	modeObsOnly = 2 // history, dump, full observation
 	modeKeep    = 3 // history, IntermediateRoot(false): empty objects are kept (the RPC simulation path)
+	modeCommit  = 4 // history, Commit(true), fresh AccountDB opened at the returned root, full observation
 )
 
 func (s *slice) runImpl(h []Op, mode int, wantLeaves bool) (r runRes) {
@@ -339,6 +370,17 @@ func (s *slice) runImpl(h []Op, mode int, wantLeaves bool) (r runRes) {
 			r.root = x.st.IntermediateRoot(true)
 		case modeKeep:
 			r.root = x.st.IntermediateRoot(false)
+		case modeCommit:
+			root, err := x.st.Commit(true)
+			if err != nil {
+				panic(fmt.Errorf("Commit(true): %v", err))
+			}
+			r.root = root
+			re, err := account.NewAccountDB(root, s.u.db)
+			if err != nil {
+				panic(fmt.Errorf("reopen at committed root: %v", err))
+			}
+			r.obs = observe(re, s.u, s.ft)
 		}
 		if wantLeaves {
 			r.leaves = account.VerifLeaves(x.st)
@@ -359,6 +401,8 @@ type refRes struct {
 	rootWarm common.Hash
 	rootCold common.Hash
 	rootKeep common.Hash
+	rootCom  common.Hash
+	obsCom   string
 }
 
 func (s *slice) ref(red []Op) *refRes {
@@ -373,6 +417,11 @@ func (s *slice) ref(red []Op) *refRes {
 		k := s.runImpl(red, modeKeep, false)
 		r.ok = r.ok && !k.panicked
 		r.rootKeep = k.root
+	}
+	if s.commit {
+		k := s.runImpl(red, modeCommit, false)
+		r.ok = r.ok && !k.panicked
+		r.rootCom, r.obsCom = k.root, strings.Join(k.obs, "\x00")
 	}
 	if len(s.memo) > 40000 {
 		s.memo = map[string]*refRes{}
@@ -404,7 +453,7 @@ func (s *slice) walk(h []Op) (m *model, red []Op, revFam []string, hasRevert, ha
 			// statement does not promise that a query is free of side effects)
 			var kept []Op
 			for _, d := range red[marks[o.V]:] {
-				if d.K == kReadAll || d.K == kReadCommitted {
+				if d.isQuery() {
 					kept = append(kept, d)
 				} else {
 					fam[familyOf(d)] = true
@@ -478,12 +527,15 @@ func (s *slice) eval(h []Op) *nodeRes {
 	}
 	// a history without RevertToSnapshot only needs the observation (model oracle, state key);
 	// one with a revert is run warm (observation, then root) and cold (root only).
-	var a, b, k runRes
+	var a, b, k, cm runRes
 	if hasRevert {
 		a = s.runImpl(h, modeObs, false)
 		b = s.runImpl(h, modeCold, false)
 		if s.keep {
 			k = s.runImpl(h, modeKeep, false)
+		}
+		if s.commit {
+			cm = s.runImpl(h, modeCommit, false)
 		}
 	} else {
 		a = s.runImpl(h, modeObsOnly, false)
@@ -491,7 +543,7 @@ func (s *slice) eval(h []Op) *nodeRes {
 	res.undone = a.undone
 	sum := sha256.Sum256([]byte(a.dump + "\x00" + m.String()))
 	copy(res.key[:], sum[:16])
-	for _, r := range []runRes{a, b, k} {
+	for _, r := range []runRes{a, b, k, cm} {
 		if r.panicked {
 			where := "in the final observation/root"
 			if r.at < len(h) {
@@ -503,7 +555,7 @@ func (s *slice) eval(h []Op) *nodeRes {
 			fail(failure{Class: "snapshot-ids", Detail: "live-set", Role: "-", Msg: r.idsBad})
 		}
 	}
-	if a.panicked || b.panicked || k.panicked {
+	if a.panicked || b.panicked || k.panicked || cm.panicked {
 		return res
 	}
 	// oracle 1: the reference model.  In a history without RevertToSnapshot a mismatch is a
@@ -576,6 +628,24 @@ func (s *slice) eval(h []Op) *nodeRes {
 		// reported only where IntermediateRoot(true) agrees: otherwise it is the same difference twice
 		failRoot(s.explainRoot(h, red, modeKeep, m))
 	}
+	if s.commit && !coldDiffers {
+		if cm.root != ref.rootCom {
+			failRoot(s.explainRoot(h, red, modeCommit, m))
+		} else if oc := strings.Join(cm.obs, "\x00"); oc != ref.obsCom {
+			// cannot happen if the root commits to everything the queries read
+			ro := strings.Split(ref.obsCom, "\x00")
+			for i, v := range cm.obs {
+				if ro[i] != v {
+					name, who := accessorOf(s.okeys[i])
+					if name == "Empty" {
+						continue
+					}
+					fail(failure{Class: "accessor", Detail: name + "-after-commit-and-reopen", Role: s.roleOfName(who),
+						Msg: fmt.Sprintf("after Commit(true) and reopening at the same root %x: %s = %s, but %s when the reverted calls are never made", cm.root[:6], s.okeys[i], v, ro[i])})
+				}
+			}
+		}
+	}
 	return res
 }
 
@@ -594,6 +664,8 @@ func (s *slice) explainRoot(h, red []Op, mode int, m *model) (f failure, flag bo
 		when = "IntermediateRoot(true) after the history and one full observation"
 	case modeKeep:
 		when, pre = "IntermediateRoot(false) directly after the history", "keep-empty/"
+	case modeCommit:
+		when, pre = "Commit(true) directly after the history", "commit/"
 	}
 	f = failure{Class: "root-differs", Detail: pre + "no-leaf-diff", Role: "-"}
 	f.Msg = fmt.Sprintf("%s: %x, but %x when the reverted calls are never made", when, x.root[:6], y.root[:6])
@@ -731,6 +803,7 @@ type caseT struct {
 	Start   string   `json:"start"`
 	FT      bool     `json:"ft,omitempty"`
 	Keep    bool     `json:"keep_empty_root,omitempty"`
+	Commit  bool     `json:"commit_and_reopen,omitempty"`
 	Slice   string   `json:"slice,omitempty"`
 	Ops     []Op     `json:"ops"`
 	History []string `json:"history"`
@@ -794,7 +867,7 @@ func (s *slice) report(c *fw.Ctx, h []Op, res *nodeRes, minimise bool) {
 		}
 		c.Outcome("fail:" + f.key())
 		msg := fmt.Sprintf("start=%s history=%v: %s", s.u.name, histStr(s.u, h), f.Msg)
-		c.Violation(sigOf(f, res.revFam), f.Class, msg, caseT{Start: s.u.name, FT: s.ft, Keep: s.keep, Slice: s.name, Ops: h, History: histStr(s.u, h)})
+		c.Violation(sigOf(f, res.revFam), f.Class, msg, caseT{Start: s.u.name, FT: s.ft, Keep: s.keep, Commit: s.commit, Slice: s.name, Ops: h, History: histStr(s.u, h)})
 	}
 }
 
@@ -976,8 +1049,8 @@ func (s *slice) step() {
 }
 
 func run(c *fw.Ctx) {
-	gen, com, warm := boot()
-	slices := buildSlices(c.Thorough(), gen, com, warm)
+	gen, com, com2, warm := boot()
+	slices := buildSlices(c.Thorough(), gen, com, com2, warm)
 	if only := os.Getenv("C04_ONLY"); only != "" { // development knob: restrict to slices whose name contains the string
 		var keep []*slice
 		for _, s := range slices {
@@ -1039,15 +1112,17 @@ func replay(c *fw.Ctx, raw json.RawMessage) {
 		fmt.Fprintln(os.Stderr, "bad case:", err)
 		os.Exit(2)
 	}
-	gen, com, warm := boot()
+	gen, com, com2, warm := boot()
 	u := gen
 	switch k.Start {
+	case com2.name:
+		u = com2
 	case com.name:
 		u = com
 	case warm.name:
 		u = warm
 	}
-	s := &slice{name: "replay", u: u, depth: len(k.Ops), ft: k.FT, keep: k.Keep}
+	s := &slice{name: "replay", u: u, depth: len(k.Ops), ft: k.FT, keep: k.Keep, commit: k.Commit}
 	s.init(c)
 	res := s.eval(k.Ops)
 	if res == nil {
